@@ -10,7 +10,7 @@ tprog.LAYOUTS = True      # leaves are handed over in C / Fortran / strided / ne
 import formulas, formula_cases, array_formulas
 
 PROP = 'C01'
-LEAN_TARGETS = ['Props.C01']
+LEAN_TARGETS = ['Props.C01', 'genformulas']      # genformulas: the definitions generated from the source on this run, executable
 REQUIRED_THEOREMS = ['Props.C01.transpose_vjp', 'Props.C01.movedim_vjp', 'Props.C01.reshape_vjp', 'Props.C01.slice_vjp',
                      'Props.C01.add_vjp', 'Props.C01.mul_vjp', 'Props.C01.exp_vjp', 'Props.C01.log_vjp', 'Props.C01.pow_vjp', 'Props.C01.vjp_unique', 'Props.C01.sum_vjp', 'Props.C01.mean_vjp', 'Props.C01.matmul_vjp']
 RULE = ('per op of the tensor API: operand shapes of rank 0-4 with sizes 1-3 (every broadcasting pattern, 0-d, size-1 axes), the '
